@@ -291,85 +291,68 @@ package analysis
 //@ func (*Parsing).Message
 //@   deterministic
 //@   nosafety
-//@   ensures [pure-text] {C18} slen(result) >= 0
 //@   modifies nothing
 //@ func (*InvalidType).Message
 //@   deterministic
 //@   nosafety
-//@   ensures [pure-text] {C18} slen(result) >= 0
 //@   modifies nothing
 //@ func (*DuplicateVariable).Message
 //@   deterministic
 //@   nosafety
-//@   ensures [pure-text] {C18} slen(result) >= 0
 //@   modifies nothing
 //@ func (*UnboundVariable).Message
 //@   deterministic
 //@   nosafety
-//@   ensures [pure-text] {C18} slen(result) >= 0
 //@   modifies nothing
 //@ func (*UnusedVar).Message
 //@   deterministic
 //@   nosafety
-//@   ensures [pure-text] {C18} slen(result) >= 0
 //@   modifies nothing
 //@ func (*TypeMismatch).Message
 //@   deterministic
 //@   nosafety
-//@   ensures [pure-text] {C18} slen(result) >= 0
 //@   modifies nothing
 //@ func (*RemainingIsNotLast).Message
 //@   deterministic
 //@   nosafety
-//@   ensures [pure-text] {C18} slen(result) >= 0
 //@   modifies nothing
 //@ func (*BadAllotmentSum).Message
 //@   deterministic
 //@   nosafety
-//@   ensures [pure-text] {C18} slen(result) >= 0
 //@   modifies nothing
 //@ func (*FixedPortionVariable).Message
 //@   deterministic
 //@   nosafety
-//@   ensures [pure-text] {C18} slen(result) >= 0
 //@   modifies nothing
 //@ func (*RedundantRemaining).Message
 //@   deterministic
 //@   nosafety
-//@   ensures [pure-text] {C18} slen(result) >= 0
 //@   modifies nothing
 //@ func (*UnknownFunction).Message
 //@   deterministic
 //@   nosafety
-//@   ensures [pure-text] {C18} slen(result) >= 0
 //@   modifies nothing
 //@ func (*BadArity).Message
 //@   deterministic
 //@   nosafety
-//@   ensures [pure-text] {C18} slen(result) >= 0
 //@   modifies nothing
 //@ func (*InvalidWorldOverdraft).Message
 //@   deterministic
 //@   nosafety
-//@   ensures [pure-text] {C18} slen(result) >= 0
 //@   modifies nothing
 //@ func (*NoAllotmentInSendAll).Message
 //@   deterministic
 //@   nosafety
-//@   ensures [pure-text] {C18} slen(result) >= 0
 //@   modifies nothing
 //@ func (*InvalidUnboundedAccount).Message
 //@   deterministic
 //@   nosafety
-//@   ensures [pure-text] {C18} slen(result) >= 0
 //@   modifies nothing
 //@ func (*EmptiedAccount).Message
 //@   deterministic
 //@   nosafety
-//@   ensures [pure-text] {C18} slen(result) >= 0
 //@   modifies nothing
 //@ func (*UnboundedAccountIsNotLast).Message
 //@   deterministic
 //@   nosafety
-//@   ensures [pure-text] {C18} slen(result) >= 0
 //@   modifies nothing
